@@ -13,6 +13,11 @@ def main (args : List String) : IO UInt32 := do
   let stdin ← IO.getStdin
   let lines ← Drv.readLines stdin #[]
   match args with
+  | ["selftest"] =>
+      -- facts about the `Float` instance that theorems take as hypotheses (the kernel cannot evaluate `Float`)
+      let inf : Float := Num.one / Num.zero
+      IO.println s!"inf-le-one={decide (inf ≤ (Num.one : Float))} inf-bits={inf.toBits} nan-minus={Num.isNaN (inf - inf)} finite-minus={Num.isNaN ((Num.one : Float) - Num.one)}"
+      return 0
   | ["matrix"] =>
       for o in Drv.Matrix.run lines do IO.println o
       return 0
